@@ -227,7 +227,7 @@ class MarkerExpression(SingleMarker):
         oper = _operators.get(op)
         if self.name in MARKERS_ALLOWING_SET:
             lhs = normalize_name(lhs)
-            if isinstance(rhs, set):
+            if isinstance(rhs, (set, frozenset)):
                 rhs = {normalize_name(v) for v in rhs}
             else:
                 rhs = normalize_name(rhs)
